@@ -40,7 +40,7 @@ impl NodeLivenessState {
 
     /// Record a failed communication attempt
     pub fn record_failure(&mut self) {
-        self.consecutive_failures += 1;
+        self.consecutive_failures = self.consecutive_failures.saturating_add(1);
         self.total_failures += 1;
     }
 
